@@ -45,6 +45,10 @@ CHECKS = {
    technique="explicit-state BFS to a fixpoint with a virtual clock over the transplanted timer source (time/{mod,runtime,future}.rs, std::time::Instant re-bound), every transition replayed on the real objects; plus real-time replay of all maximal traces of a reduced space on the real Runtime",
    text="All reachable canonical states of {real TimerRuntime + real Sleep/Timeout/Interval futures + modelled run loop} under Sleep(d in -1..3)/Timeout/Tick/Poll (two wakers)/Drop/Busy/Loop(early|exact|late) are explored to the fixpoint for <= 3 timers alive and clock <= 6 (quick) / 10 (thorough) ticks, and <= 4 alive for sleeps and interval only. Invariants on every transition: never Ready before the deadline; Ready and the registered waker invoked once a wake() ran at or after the deadline; min_timeout never exceeds the nearest pending deadline; no wheel entry without a live owner; Timeout gives Ok iff the inner future was ready at that poll, Elapsed only at/after the deadline; interval ticks equal start + k*period. Conformance: 538 (quick) / 6890 (thorough) maximal traces replayed on the real runtime with 1 tick = 3 ms (never-early exact; fires-within-slack with a tolerance).",
    note="Trusted: the virtual Instant, the 20-line Runtime stand-in, the run-loop model Loop(delta) (read from lib.rs, not transplanted), the canonical-state abstraction (argued in model.rs; a wrong merge can only lose coverage). The real-time 'always fires' part uses a 60 ms slack and is a liveness check with a tolerance. Not covered: driver timeout rounding, > 4 simultaneous timers, Instant overflow."),
+ "C20": dict(engine="e_c20", design="§2/C20",
+   technique="bounded exhaustive enumeration of harness step sequences (gated child process x manually stepped compio runtime) on the real compio-process/runtime/driver code, both drivers and both wait paths, position-coded stream and exit-status oracle",
+   text="Every plan of the families {full, out, outerr, in, duplex, status, output, managed} (sub-alphabets of ChildOut/Err(n), ChildReadIn, ChildClose, ChildExit(mode), ReadOut/Err(chunk), WriteIn(len), CloseIn, WaitPoll, OutputPoll, Harvest; depth 3-4 quick / 4-6 thorough with a stop alternative at every position; sizes {1, cap-1, cap, cap+1, 2cap}, chunks {1, 4096, cap}, exit modes {0,1,255,TERM,KILL}) runs once from a fresh runtime, thread and child (the harness's own binary obeying commands over a control socket), followed by a canonical drain/exit/wait epilogue, on io_uring and polling and with the blocking-pool and pidfd wait paths. Checked at every step: stdout/stderr bytes equal the commanded bytes in order and complete, EOF only after close/exit, the child's stdin checksum equals the bytes acknowledged as written, wait is Pending before the exit step and yields exactly the commanded code or signal afterwards, no runtime-thread blocking.",
+   note="Trusted: child state machine and control protocol, Linux pipe semantics, /proc/<tid>/syscall for blocked-thread detection; a 20 s watchdog; 30/100 ms grace for 'wait stays pending'; violations re-executed twice before being reported. Not covered: Child::kill, cancelling in-flight stdio/wait futures, pipe capacities other than 65536. Known finding: stdin write blocks the runtime thread on the polling driver."),
 }
 
 NOT_YET = {
@@ -95,6 +99,7 @@ def main():
             {"name": "e_c08", "path": "/verif/e_c08", "serves_properties": ["C08"], "kind_free_text": "differential operation-sequence explorer: OS reference vs compio on io_uring vs compio on polling (fusion driver, driver chosen at run time)"},
             {"name": "e_c09", "path": "/verif/e_c09", "serves_properties": ["C09"], "kind_free_text": "explicit-state BFS with a virtual clock over the transplanted timer sources (build.rs copies them from /repo and re-binds std), plus real-time trace conformance on the real runtime"},
             {"name": "e_c03", "path": "/verif/e_c03", "serves_properties": ["C03"], "kind_free_text": "wake-position enumerator on the real drivers (cfg(compio_verif) interleaving points inside Driver::poll/flush)"},
+            {"name": "e_c20", "path": "/verif/e_c20", "serves_properties": ["C20"], "kind_free_text": "plan enumerator over a gated child process and a manually stepped runtime, sharded over worker processes"},
             {"name": "e2pure", "path": "/verif/e2pure", "serves_properties": ["C10", "C11", "C12", "C13"], "kind_free_text": "input-exhaustive / deviation-bounded explorer driving real compio-buf and compio-io code (stateless DFS with prefix replay, vcore::explore)"},
         ],
         "checks": checks,
